@@ -66,9 +66,15 @@ func (self Node) Len() (int, error) {
 func (self Node) len() (int, error) {
 	switch self.t {
 	case thrift.LIST, thrift.SET:
+		if self.l < 5 {
+			return -1, errNode(meta.ErrRead, "list/set header is cut", nil)
+		}
 		b := rt.BytesFrom(unsafe.Pointer(uintptr(self.v)+uintptr(1)), 4, 4)
 		return int(thrift.BinaryEncoding{}.DecodeInt32(b)), nil
 	case thrift.MAP:
+		if self.l < 6 {
+			return -1, errNode(meta.ErrRead, "map header is cut", nil)
+		}
 		b := rt.BytesFrom(unsafe.Pointer(uintptr(self.v)+uintptr(2)), 4, 4)
 		return int(thrift.BinaryEncoding{}.DecodeInt32(b)), nil
 	default:
@@ -99,6 +105,9 @@ func (self Node) Byte() (byte, error) {
 func (self Node) byte() (byte, error) {
 	switch self.t {
 	case thrift.BYTE:
+		if self.l < 1 {
+			return 0, errNode(meta.ErrRead, "value is cut", nil)
+		}
 		return byte(thrift.BinaryEncoding{}.DecodeByte(rt.BytesFrom(self.v, int(self.l), int(self.l)))), nil
 	default:
 		return 0, errNode(meta.ErrUnsupportedType, "", nil)
@@ -116,6 +125,9 @@ func (self Node) Bool() (bool, error) {
 func (self Node) bool() (bool, error) {
 	switch self.t {
 	case thrift.BOOL:
+		if self.l < 1 {
+			return false, errNode(meta.ErrRead, "value is cut", nil)
+		}
 		return thrift.BinaryEncoding{}.DecodeBool(rt.BytesFrom(self.v, int(self.l), int(self.l))), nil
 	default:
 		return false, errNode(meta.ErrUnsupportedType, "", nil)
@@ -131,6 +143,9 @@ func (self Node) Int() (int, error) {
 }
 
 func (self Node) int() (int, error) {
+	if n := thrift.TypeSize(self.t); n > 0 && self.l < n {
+		return 0, errNode(meta.ErrRead, "value is cut", nil)
+	}
 	buf := rt.BytesFrom(self.v, int(self.l), int(self.l))
 	switch self.t {
 	case thrift.I08:
@@ -157,6 +172,9 @@ func (self Node) Float64() (float64, error) {
 func (self Node) float64() (float64, error) {
 	switch self.t {
 	case thrift.DOUBLE:
+		if self.l < 8 {
+			return 0, errNode(meta.ErrRead, "value is cut", nil)
+		}
 		return thrift.BinaryEncoding{}.DecodeDouble(rt.BytesFrom(self.v, int(self.l), int(self.l))), nil
 	default:
 		return 0, errNode(meta.ErrUnsupportedType, "", nil)
@@ -174,6 +192,9 @@ func (self Node) String() (string, error) {
 func (self Node) string() (string, error) {
 	switch self.t {
 	case thrift.STRING:
+		if !self.strFits() {
+			return "", errNode(meta.ErrRead, "string is cut", nil)
+		}
 		str := thrift.BinaryEncoding{}.DecodeString(rt.BytesFrom(self.v, int(self.l), int(self.l)))
 		// if self.d.IsBinary() {
 		// 	if !utf8.Valid(rt.Str2Mem(str)) {
@@ -184,6 +205,15 @@ func (self Node) string() (string, error) {
 	default:
 		return "", errNode(meta.ErrUnsupportedType, "", nil)
 	}
+}
+
+// strFits tells if the length prefix of a STRING node and the bytes it announces lie inside the node
+func (self Node) strFits() bool {
+	if self.l < 4 {
+		return false
+	}
+	size := thrift.BinaryEncoding{}.DecodeInt32(rt.BytesFrom(self.v, 4, 4))
+	return size >= 0 && int(size) <= self.l-4
 }
 
 // Binary returns the bytes value contained by a BINARY node
@@ -197,6 +227,9 @@ func (self Node) Binary() ([]byte, error) {
 func (self Node) binary() ([]byte, error) {
 	switch self.t {
 	case thrift.STRING:
+		if !self.strFits() {
+			return nil, errNode(meta.ErrRead, "binary is cut", nil)
+		}
 		return thrift.BinaryEncoding{}.DecodeBytes(rt.BytesFrom(self.v, int(self.l), int(self.l))), nil
 	default:
 		return nil, errNode(meta.ErrUnsupportedType, "", nil)
